@@ -22,7 +22,10 @@ with apat : Type :=
 | PLit (v : val)                                  (* a plain value: scalar, object or list *)
 | PMatch (p : pat)                                (* match(T)(...) / select(T)(...) / match_any(T)(...) *)
 | PAny (v : val)                                  (* match_any([v1, ...]) *)
-| PAll (v : val).                                 (* match_all([v1, ...]) *)
+| PAll (v : val)                                  (* match_all([v1, ...]) *)
+| PVar (v : val)                                  (* a let-variable over the explicit domain [v1, ...] given as the value *)
+| PSel (c : apat).                                (* the same value written with select / select_any / select_all: the inner
+                                                     part is reported in the result rows *)
 
 Scheme pat_mind := Induction for pat Sort Prop
   with alist_mind := Induction for alist Sort Prop
@@ -64,9 +67,57 @@ Section Spec.
     | PMatch p => match v with VO o' => matches p o' | VLO xs => existsb (matches p) xs | _ => false end
     | PAny vals => common v vals
     | PAll vals => same_set v vals
+    | PVar vals => common v vals       (* the attribute equals / has a member equal to SOME value of the variable's domain *)
+    | PSel c' => matches_attr c' v      (* selecting does not constrain *)
     end.
 
   (* the answer: the domain elements of type T that satisfy the pattern (identities; order of the domain) *)
   Definition spec_run (T : cls) (l : alist) (D : list Z) : list Z :=
     filter (matches (Pat (Some T) l)) D.
+
+  (* ---- result rows: the projections of the satisfying assignments onto the selected inner parts.
+     A satisfying assignment chooses, for every nested match on a collection attribute, one member that satisfies it.
+     A selected keyword contributes the attribute value and, on a collection attribute, also the chosen member
+     (in this order); columns follow the order in which the keywords are written, depth first. ---- *)
+  Definition guard (b : bool) (rows : list (list val)) : list (list val) := if b then rows else [].
+  Definition cols (s : bool) (vs : list val) : list val := if s then vs else [].
+  Fixpoint srows_pat (s : bool) (q : pat) (v : val) {struct q} : list (list val) :=
+    match q with
+    | Pat t l =>
+        match v with
+        | VO o' => guard (type_ok t o') (map (app (cols s [v])) (srows_alist l o'))
+        | VLO xs => flat_map (fun x => guard (type_ok t x) (map (app (cols s [v; VO x])) (srows_alist l x))) xs
+        | _ => []
+        end
+    end
+  with srows_alist (l : alist) (o : Z) {struct l} : list (list val) :=
+    match l with
+    | ANil => [[]]
+    | ACons a c rest =>
+        flat_map (fun r1 => map (app r1) (srows_alist rest o)) (srows_apat false c (attr W o a))
+    end
+  with srows_apat (s : bool) (c : apat) (v : val) {struct c} : list (list val) :=
+    match c with
+    | PLit lit => guard (lit_ok v lit) [[]]
+    | PMatch q => srows_pat s q v
+    | PAny vals => guard (common v vals) [cols s [v]]
+    | PAll vals => guard (same_set v vals) [cols s [v]]
+    | PVar vals => guard (common v vals) [[]]
+    | PSel c' => srows_apat true c' v
+    end.
+
+  (* is anything selected at all (otherwise the root element is what is returned) *)
+  Fixpoint anysel_alist (l : alist) : bool :=
+    match l with ANil => false | ACons _ c rest => anysel_apat c || anysel_alist rest end
+  with anysel_apat (c : apat) : bool :=
+    match c with
+    | PSel _ => true
+    | PMatch (Pat _ l) => anysel_alist l
+    | _ => false
+    end.
+  (* entity_selection(T, dom)(...) reports the root element as first column; entity_matching(T, dom)(...) reports it
+     only when nothing else is selected *)
+  Definition spec_rows (rootsel : bool) (T : cls) (l : alist) (D : list Z) : list (list val) :=
+    let rs := rootsel || negb (anysel_alist l) in
+    flat_map (fun o => guard (sub (otype M o) T) (map (app (cols rs [VO o])) (srows_alist l o))) D.
 End Spec.
